@@ -43,10 +43,28 @@ def report(chk, kind, **kw):
 
 
 # ------------------------------------------------------------------ fault-injecting destinations
+class InjectedRuntimeError(RuntimeError):
+    pass
+
+
+EXC_TYPES = ['oserror', 'keyboard', 'runtime', 'memory']
+
+
+def make_exc(kind):
+    """The exception the k-th call raises.  C07's mechanism (the finally clauses) must not depend on its type."""
+    e = {'oserror': lambda: OSError(errno.ENOSPC, 'No space left on device (injected)'),
+         'keyboard': lambda: KeyboardInterrupt('injected'),
+         'runtime': lambda: InjectedRuntimeError('injected'),
+         'memory': lambda: MemoryError('injected')}[kind]()
+    e._verif_injected = True
+    return e
+
+
 class Ctr:
-    def __init__(self, k=None):
+    def __init__(self, k=None, exc='oserror'):
         self.n = 0
         self.k = k
+        self.exc = exc
         self.log = []
 
 
@@ -63,7 +81,7 @@ class Faulty(io.BytesIO):
         self.ctr.n += 1
         if i == self.ctr.k:
             self.ctr.log.append((self.key, what, 'FAIL'))
-            raise OSError(errno.ENOSPC, 'No space left on device (injected)')
+            raise make_exc(self.ctr.exc)
         self.ctr.log.append((self.key, what))
 
     def write(self, b):
@@ -308,6 +326,8 @@ def dtype_code(hdr_cls_obj, dt):
 
 def exc_enum(e):
     from nibabel.arraywriters import WriterError
+    if getattr(e, '_verif_injected', False):
+        return 'err:oserror'          # the model's EOS = "the injected exception propagated", whatever its type
     from nibabel.spatialimages import HeaderDataError
     if isinstance(e, WriterError):
         return 'err:writer'
@@ -415,23 +435,25 @@ def model_case(spec, measured_nmat):
     return K, od, state, env
 
 
-def fmt_case(K, od, state, env, mine='0 0 0'):
-    return ' '.join(K) + ' ' + od + ' ' + ' '.join(state) + ' ' + ' '.join(env) + ' ' + mine
+def fmt_case(K, od, state, env, mine='0 0 0', oserr=True):
+    return ' '.join(K) + ' ' + od + ' ' + ' '.join(state) + ' ' + ' '.join(env) + ' ' + mine + (' 1' if oserr else ' 0')
 
 
-def attempt(spec, k, healthy_after=True):
+def attempt(spec, k, healthy_after=True, exc='oserror'):
     """One save of a fresh image with the k-th call failing (k=None: clean); then, on the SAME
     object, a save to a healthy destination."""
     img, kw = make_image(spec)
     before = snapshot(img)
-    ctr = Ctr(k)
+    ctr = Ctr(k, exc)
     fm = file_map_for(type(img), ctr)
     res = 'ok'
     with warnings.catch_warnings():
         warnings.simplefilter('ignore')
         try:
             img.to_file_map(fm, **kw)
-        except Exception as e:  # noqa
+        except BaseException as e:  # noqa  (KeyboardInterrupt is one of the injected types)
+            if isinstance(e, KeyboardInterrupt) and not getattr(e, '_verif_injected', False):
+                raise
             res = exc_enum(e)
     after = snapshot(img)
     st = model_state(img, spec['cls'], before)
@@ -472,10 +494,10 @@ def written_header_fields(spec, clean_bytes):
     return '/'.join(hdr_fields(h, cls))
 
 
-def run_case(chk, spec, mout, tag):
+def run_case(chk, spec, mout, tag, exc='oserror'):
     """Sweep k over all calls of the clean run; compare with the model's sweep; evaluate the
     property predicate directly."""
-    case0 = {'spec': spec}
+    case0 = {'spec': spec, 'exc': exc}
     clean = attempt(spec, None)
     n = clean['n']
     # ---- parse the model's sweep
@@ -493,12 +515,15 @@ def run_case(chk, spec, mout, tag):
     fresh_bytes = clean['bytes'] if clean['res'] == 'ok' else None
     results = []
     for k in [None] + list(range(n)):
-        r = clean if k is None else attempt(spec, k)
+        r = clean if k is None else attempt(spec, k, exc=exc)
         results.append((k, r))
     for k, r in results:
         case = dict(case0, k=k)
         nontriv = k is not None and r['res'] != 'ok'
-        chk.count(key=(repr(sorted(spec.items(), key=str)), k) if r['n'] > 0 else None,
+        if k is None and exc != 'oserror' and tag != 'random':
+            continue                       # the clean run was counted and compared with the OSError sweep
+        chk.tagc('injected:' + exc)
+        chk.count(key=(repr(sorted(spec.items(), key=str)), k, exc) if r['n'] > 0 else None,
                   tag=f"{spec['cls']}", sample={'spec': spec, 'k': k, 'result': r['res']} if (k == 4 and len(chk.samples) < 6) else None)
         chk.tagc('outcome:' + ('clean_ok' if k is None and r['res'] == 'ok' else 'fault_absorbed' if k is not None and r['res'] == 'ok'
                                else r['res'] if k is not None else 'clean_' + r['res']))
@@ -590,8 +615,9 @@ def part_histories(chk, specs, nmat):
             ovs = [None]
         else:
             ovs = [None, None, '<i2', '|u1', '<f4', '<f2']
-        steps = [(rng.choice(ovs), rng.choice([None, None] + list(range(0, 12)))) for _ in range(rng.randrange(3, 7))]
-        steps.append((spec.get('override'), None))
+        steps = [(rng.choice(ovs), rng.choice([None, None] + list(range(0, 12))), rng.choice(EXC_TYPES))
+                 for _ in range(rng.randrange(3, 7))]
+        steps.append((spec.get('override'), None, 'oserror'))
         hs.append((spec, steps))
     imgs = [make_image(spec)[0] for spec, _ in hs]
     mstate = [None] * len(hs)
@@ -601,24 +627,26 @@ def part_histories(chk, specs, nmat):
         for hi, (spec, steps) in enumerate(hs):
             if j >= len(steps):
                 continue
-            ov, k = steps[j]
+            ov, k, exc = steps[j]
             sp = dict(spec)
             sp.pop('override', None)
             if ov:
                 sp['override'] = ov
             K, od, st0, env = model_case(sp, nmat)
             st = mstate[hi].split('/') if mstate[hi] else st0
-            lines.append(f'{hi} run {-1 if k is None else k} ' + fmt_case(K, od, st, env))
+            lines.append(f'{hi} run {-1 if k is None else k} ' + fmt_case(K, od, st, env, oserr=(exc == 'oserror')))
             img = imgs[hi]
             before = snapshot(img)
-            ctr = Ctr(k)
+            ctr = Ctr(k, exc)
             fm = file_map_for(type(img), ctr)
             res = 'ok'
             with warnings.catch_warnings():
                 warnings.simplefilter('ignore')
                 try:
                     img.to_file_map(fm, **({'dtype': np.dtype(ov)} if ov else {}))
-                except Exception as e:  # noqa
+                except BaseException as e:  # noqa
+                    if isinstance(e, KeyboardInterrupt) and not getattr(e, '_verif_injected', False):
+                        raise
                     res = exc_enum(e)
             after = snapshot(img)
             impl[hi] = (res, ctr.n, model_state(img, spec['cls']), before, after, out_bytes(fm), sp)
@@ -691,15 +719,18 @@ def run_alias_history(base, ops, faults=None, fresh_cache=None):
             sets.append(dt)
         else:
             k = None if not faults else faults.get(j)
+            exc = EXC_TYPES[(k or 0) % len(EXC_TYPES)]          # the injected type cycles with k
             before = snapshot(img)
-            ctr = Ctr(k)
+            ctr = Ctr(k, exc)
             fm = file_map_for(type(img), ctr)
             res = 'ok'
             with warnings.catch_warnings():
                 warnings.simplefilter('ignore')
                 try:
                     img.to_file_map(fm)
-                except Exception as e:  # noqa
+                except BaseException as e:  # noqa
+                    if isinstance(e, KeyboardInterrupt) and not getattr(e, '_verif_injected', False):
+                        raise
                     res = exc_enum(e)
             key = (base['cls'], base['data_dtype'], base.get('small'), req)
             if key not in fresh_cache:
@@ -754,7 +785,8 @@ def part_alias_histories(chk, nmat):
                 else:                                # explicit dtype: alias cleared, header datatype set
                     st[5] = '-'
                     st[1] = str(dtype_code(hc, q))
-            lines.append(f"{hi} run {-1 if sv['k'] is None else sv['k']} " + fmt_case(K, od, st, env))
+            lines.append(f"{hi} run {-1 if sv['k'] is None else sv['k']} " +
+                         fmt_case(K, od, st, env, oserr=(EXC_TYPES[(sv['k'] or 0) % len(EXC_TYPES)] == 'oserror')))
         mout = run_model(PROP, lines)
         for hi in range(len(hists)):
             if si < len(runs[hi]):
@@ -960,7 +992,7 @@ def run(chk: Check):
     chk.rule = ('every writable class (Analyze, SPM99, SPM2, NIfTI-1/2 pair and single, MGH, CIFTI-2) x variant '
                 '{float->int scaled, int unscaled, dtype= override, compat / smallest alias, unresolvable alias, preset '
                 'slope/intercept, user offset, header extensions, unsupported override, 4-D}: k swept over ALL '
-                'write/seek/tell/close calls of the clean run (every call failing in turn) + the clean run, each followed '
+                'write/seek/tell/close calls of the clean run (every call failing in turn, once per injected exception type: OSError(ENOSPC), KeyboardInterrupt, RuntimeError, MemoryError) + the clean run, each followed '
                 'by a retry of the same object to a healthy destination; seeded random specs (class, shape, dtypes, '
                 'alias, preset scaling, offsets, extensions, default_x_flip) swept the same way; alias-switching histories (exhaustive over 3 operations + random) compared with fresh images; /dev/full destinations (real ENOSPC at '
                 'close); two saves through file names for plain/.gz/.bz2/.zst; a case = (spec, k), non-trivial when the '
@@ -997,12 +1029,17 @@ def run(chk: Check):
             chk.refusal('construct:' + type(e).__name__)
             continue
         K, od, state, env = model_case(spec, nmat)
-        lines.append(f'{len(usable)} sweep ' + fmt_case(K, od, state, env))
+        # the fixed grid is swept once per injected exception type (the model needs only "OSError or not":
+        # seek_tell catches OSError); a random spec gets one type
+        lines.append(f'{len(usable)}.1 sweep ' + fmt_case(K, od, state, env, oserr=True))
+        lines.append(f'{len(usable)}.0 sweep ' + fmt_case(K, od, state, env, oserr=False))
         usable.append((name, spec))
     mout = run_model(PROP, lines)
     ncalls = {}
     for i, (name, spec) in enumerate(usable):
-        n = run_case(chk, spec, mout.get(str(i)), name)
+        types = EXC_TYPES if name != 'random' else [chk.rng.choice(EXC_TYPES)]
+        for exc in types:
+            n = run_case(chk, spec, mout.get(f"{i}.{1 if exc == 'oserror' else 0}"), name, exc)
         ncalls[name] = n if name != 'random' else ncalls.get(name, 0) + n
     chk.extra['calls_per_fixed_case'] = {k: v for k, v in ncalls.items() if k != 'random'}
     part_histories(chk, [sp for nm, sp in usable if nm != 'random'], nmat)
@@ -1031,14 +1068,14 @@ def part_vm(chk, lines):
         f = r.split()
         k = int(f[2])
         a = f[3:]
-        (fam, sg, hs, hsl, hin, nif, km, hm, od, off, dt, sl, it, mg, al, da, af, rsv, uns, wf, ss, si, ns, ex, nm, mh, mi, mm) = a
+        (fam, sg, hs, hsl, hin, nif, km, hm, od, off, dt, sl, it, mg, al, da, af, rsv, uns, wf, ss, si, ns, ex, nm, mh, mi, mm, oe) = a
         b = {'0': 'false', '1': 'true'}
         K = f"(mkK {dict(A='FAnalyze', M='FMgh', C='FCifti')[fam]} {b[sg]} ({hs}) {b[hsl]} {b[hin]} {b[nif]} ({km}) {b[hm]})"
         img = f"(mkImg (mkHdr ({off}) ({dt}) {scz(sl)} {scz(it)} ({mg})) {dict([('-', 'None'), ('compat', '(Some Compat)'), ('smallest', '(Some Smallest)')])[al]} ({da}) ({af}))"
         unsl = '[' + ';'.join(x for x in uns.strip('[]').split(',') if x) + ']'
         exl = '[' + ';'.join(x for x in ex.strip('[]').split(',') if x) + ']'
         orc = 'healthy' if k < 0 else f'(fail_at {k})'
-        term = (f"run_save {orc} (fun _ _ => {'None' if rsv == '-' else 'Some (' + rsv + ')'}) "
+        term = (f"run_save {orc} {b[oe]} (fun _ _ => {'None' if rsv == '-' else 'Some (' + rsv + ')'}) "
                 f"(fun c => negb (existsb (Z.eqb c) {unsl})) (fun _ _ => {b[wf]}) (fun _ _ => ({scz(ss)}, {scz(si)})) "
                 f"(fun _ => {ns}%nat) {exl} {nm}%nat (mkDest {b[mh]} {b[mi]} {b[mm]}) {K} "
                 f"{'None' if od == '-' else '(Some (' + od + '))'} {img}")
@@ -1083,7 +1120,7 @@ def _replay(chk, obj):
         spec = c['spec']
         if spec.get('preset'):
             spec['preset'] = tuple(spec['preset'])
-        r = attempt(spec, c.get('k'))
+        r = attempt(spec, c.get('k'), exc=c.get('exc', 'oserror'))
         clean = attempt(spec, None, healthy_after=False)
         d1 = diff_keys(r['before'], r['after'])
         bad = bool(d1)
@@ -1091,7 +1128,7 @@ def _replay(chk, obj):
             bad = True
         if diff_keys(r['after'], r['after_retry']):
             bad = True
-        print({'k': c.get('k'), 'result': r['res'], 'calls': r['log'][-6:], 'changed': d1,
+        print({'k': c.get('k'), 'injected': c.get('exc', 'oserror'), 'result': r['res'], 'calls': r['log'][-6:], 'changed': d1,
                'retry': r['retry'][0], 'retry_bytes_equal_fresh': r['retry'][1] == clean['bytes'] if clean['res'] == 'ok' else None})
         print('property fails on this case' if bad else 'property holds on this case')
         return 1 if bad else 0
@@ -1144,18 +1181,22 @@ def _replay(chk, obj):
             spec['preset'] = tuple(spec['preset'])
         img = make_image(spec)[0]
         bad = False
-        for ov, k in steps:
+        for step in steps:
+            ov, k = step[0], step[1]
+            exc = step[2] if len(step) > 2 else 'oserror'
             before = snapshot(img)
-            fm = file_map_for(type(img), Ctr(k))
+            fm = file_map_for(type(img), Ctr(k, exc))
             try:
                 with warnings.catch_warnings():
                     warnings.simplefilter('ignore')
                     img.to_file_map(fm, **({'dtype': np.dtype(ov)} if ov else {}))
                 res = 'ok'
-            except Exception as e:  # noqa
+            except BaseException as e:  # noqa
+                if isinstance(e, KeyboardInterrupt) and not getattr(e, '_verif_injected', False):
+                    raise
                 res = exc_enum(e)
             d1 = diff_keys(before, snapshot(img))
-            print({'override': ov, 'k': k, 'result': res, 'changed': d1})
+            print({'override': ov, 'k': k, 'injected': exc, 'result': res, 'changed': d1})
             if d1:
                 bad = True
         print('property fails on this case' if bad else 'property holds on this case')
